@@ -681,7 +681,7 @@ func interleave(r *vh.Run, i int) {
 		if stPut == 201 {
 			// the acknowledged completion names d: it must be served and (checked above) hash to d
 			if g := vh.Do(srv, vh.Req{Method: "GET", URL: "/v2/il/blobs/" + d}); g.Status != 200 {
-				r.Violation("interleaved-acknowledged-not-served", fmt.Sprintf("PUT ?digest=%s answered 201, GET answers %d", vh.Short(d), g.Status), map[string]any{"trial": i, "store": kind.String()})
+				r.Violation("interleaved-acknowledged-not-served", fmt.Sprintf("PUT ?digest=%s answered 201, GET answers %d", vh.Short(d), g.Status), map[string]any{"trial": i, "store": kind.String(), "algorithm": alg, "declared": declKind, "patch_status": stPatch, "put_status": stPut, "pieces": len(pieces), "session": t, "digest": d})
 				return
 			}
 		}
